@@ -16,7 +16,7 @@ for prop in sys.argv[1:]:
         if getattr(con, 'standin', True) is False:
             print(prop, c.split('.')[-1], 'stand-in disabled'); continue
         bd = P.get('bounds', {}).get(c, P.get('bounds', {}).get('*', {}))
-        req = {'mode': 'enum', 'contract': c, 'receiver': recv, 'bounds': bd, 'limit': 3000, 'random': 3000, 'seed': 1}
+        req = {'mode': 'enum', 'contract': c, 'receiver': recv, 'bounds': bd, 'limit': 20000, 'random': 30000, 'seed': 1}
         p = subprocess.run(['/venv/bin/python', '-W', 'ignore', '/verif/harness/run_concrete.py'], input=json.dumps(req),
                            capture_output=True, text=True, env=dict(os.environ, PYTHONPATH='/repo'))
         try:
